@@ -15,7 +15,10 @@ use litep2p::{
         ConfigBuilder as RrBuilder, DialOptions, RejectReason, RequestResponseError, RequestResponseEvent,
         RequestResponseHandle,
     },
-    transport::{tcp::config::Config as TcpConfig, ConnectionLimitsConfig},
+    transport::{
+        quic::config::Config as QuicConfig, tcp::config::Config as TcpConfig, websocket::config::Config as WsConfig,
+        ConnectionLimitsConfig,
+    },
     types::{protocol::ProtocolName, RequestId},
     Litep2p, Litep2pEvent, PeerId,
 };
@@ -38,6 +41,9 @@ use tokio::sync::{mpsc, oneshot, Notify};
 pub struct Scenario {
     pub id: u64,
     pub seed: u64,
+    /// "tcp" (default) | "ws" | "quic"
+    #[serde(default)]
+    pub transport: String,
     #[serde(default)]
     pub src: String,
     pub timeout_ms: u64,
@@ -56,6 +62,10 @@ pub struct Scenario {
     pub epilogue: String,
     #[serde(default = "d_linger")]
     pub linger_ms: u64,
+    /// time bound for one request when the script knows better than the general formula (e.g. every
+    /// request goes to an already connected peer, so no connection-open timeout is involved)
+    #[serde(default)]
+    pub bound_ms: Option<u64>,
 }
 fn d_keep() -> u64 {
     5000
@@ -383,16 +393,23 @@ pub struct NetResult {
 }
 
 /// a port nobody listens on (bind, read the number, close)
-async fn closed_port() -> u16 {
+async fn closed_port(quic: bool) -> u16 {
+    if quic {
+        let l = tokio::net::UdpSocket::bind("127.0.0.1:0").await.expect("bind");
+        return l.local_addr().unwrap().port();
+    }
     let l = tokio::net::TcpListener::bind("127.0.0.1:0").await.expect("bind");
     l.local_addr().unwrap().port()
 }
 
-fn addr(port: u16, peer: PeerId) -> Multiaddr {
-    Multiaddr::empty()
-        .with(Protocol::Ip4(std::net::Ipv4Addr::LOCALHOST))
-        .with(Protocol::Tcp(port))
-        .with(Protocol::P2p(peer.into()))
+fn addr(transport: &str, port: u16, peer: PeerId) -> Multiaddr {
+    let ip = Multiaddr::empty().with(Protocol::Ip4(std::net::Ipv4Addr::LOCALHOST));
+    match transport {
+        "ws" => ip.with(Protocol::Tcp(port)).with(Protocol::Ws(std::borrow::Cow::Borrowed("/"))),
+        "quic" => ip.with(Protocol::Udp(port)).with(Protocol::QuicV1),
+        _ => ip.with(Protocol::Tcp(port)),
+    }
+    .with(Protocol::P2p(peer.into()))
 }
 
 pub async fn run_network(sc: Scenario) -> NetResult {
@@ -400,7 +417,14 @@ pub async fn run_network(sc: Scenario) -> NetResult {
     let log = NetLog::new();
     let n = sc.nodes.len();
     let maxc: Vec<i64> = sc.nodes.iter().map(|s| s.maxc.map(|x| x as i64).unwrap_or(-1)).collect();
-    log.ev(0, "d", json!({"e": "reset", "id": sc.id, "seed": sc.seed, "src": sc.src, "maxc": maxc,
+    let tr: &str = match sc.transport.as_str() {
+        "ws" => "ws",
+        "quic" => "quic",
+        _ => "tcp",
+    };
+    let quic = tr == "quic";
+    let mut silent_udp: Vec<tokio::net::UdpSocket> = Vec::new();
+    log.ev(0, "d", json!({"e": "reset", "id": sc.id, "seed": sc.seed, "src": sc.src, "maxc": maxc, "transport": tr,
         "nodes": sc.nodes.iter().map(|s| json!({"kind": if s.kind.is_empty() { "node" } else { s.kind.as_str() },
             "max_out": s.max_out.map(|x| x as i64).unwrap_or(-1), "max_in": s.max_in.map(|x| x as i64).unwrap_or(-1)})).collect::<Vec<_>>(),
         "links": sc.links.iter().map(|l| json!({"from": l.from, "to": l.to, "via": l.via})).collect::<Vec<_>>(),
@@ -432,16 +456,32 @@ pub async fn run_network(sc: Scenario) -> NetResult {
             b = b.with_max_concurrent_inbound_requests(m);
         }
         let (rr, handle) = b.build();
-        let mut cb = ConfigBuilder::new()
-            .with_keypair(Keypair::generate())
-            .with_tcp(TcpConfig {
+        let mut cb = ConfigBuilder::new().with_keypair(Keypair::generate());
+        cb = match tr {
+            "ws" => cb.with_websocket(WsConfig {
+                listen_addresses: vec!["/ip4/127.0.0.1/tcp/0/ws".parse().unwrap()],
+                reuse_port: false,
+                nodelay: true,
+                connection_open_timeout: Duration::from_millis(sc.conn_ms),
+                substream_open_timeout: Duration::from_millis(sc.sub_ms),
+                ..Default::default()
+            }),
+            // quinn takes its handshake / idle timeout from `connection_open_timeout`
+            "quic" => cb.with_quic(QuicConfig {
+                listen_addresses: vec!["/ip4/127.0.0.1/udp/0/quic-v1".parse().unwrap()],
+                connection_open_timeout: Duration::from_millis(sc.conn_ms),
+                substream_open_timeout: Duration::from_millis(sc.sub_ms),
+            }),
+            _ => cb.with_tcp(TcpConfig {
                 listen_addresses: vec!["/ip4/127.0.0.1/tcp/0".parse().unwrap()],
                 reuse_port: false,
                 nodelay: true,
                 connection_open_timeout: Duration::from_millis(sc.conn_ms),
                 substream_open_timeout: Duration::from_millis(sc.sub_ms),
                 ..Default::default()
-            })
+            }),
+        };
+        let mut cb = cb
             .with_request_response_protocol(rr)
             .with_executor(exec.clone())
             .with_keep_alive_timeout(Duration::from_millis(sc.keep_alive_ms));
@@ -465,7 +505,10 @@ pub async fn run_network(sc: Scenario) -> NetResult {
         };
         let port = l
             .listen_addresses()
-            .find_map(|a| a.iter().find_map(|p| if let Protocol::Tcp(p) = p { Some(p) } else { None }))
+            .find_map(|a| a.iter().find_map(|p| match p {
+                Protocol::Tcp(p) | Protocol::Udp(p) => Some(p),
+                _ => None,
+            }))
             .unwrap_or(0);
         peer_ids.push(*l.local_peer_id());
         ports.push(port);
@@ -485,7 +528,17 @@ pub async fn run_network(sc: Scenario) -> NetResult {
         let target_is_ghost = sc.nodes[l.to - 1].kind == "ghost";
         let port = match l.via.as_str() {
             "direct" if !target_is_ghost => ports[l.to - 1],
-            "proxy" | "blackhole" if !target_is_ghost || l.via == "blackhole" => {
+            // QUIC runs over UDP: no byte proxy; a black hole is a bound socket that never answers
+            "blackhole" if quic => match tokio::net::UdpSocket::bind("127.0.0.1:0").await {
+                Ok(u) => {
+                    let p = u.local_addr().map(|a| a.port()).unwrap_or(0);
+                    silent_udp.push(u);
+                    p
+                }
+                Err(_) => closed_port(true).await,
+            },
+            "proxy" if quic && !target_is_ghost => ports[l.to - 1],
+            "proxy" | "blackhole" if !quic && (!target_is_ghost || l.via == "blackhole") => {
                 match Proxy::start(ports[l.to - 1], l.via == "blackhole").await {
                     Ok(p) => {
                         if let (Some(d), Some(a)) = (&l.cut0_dir, l.cut0_after) {
@@ -495,12 +548,12 @@ pub async fn run_network(sc: Scenario) -> NetResult {
                         proxies.insert((l.from, l.to), p);
                         port
                     }
-                    Err(_) => closed_port().await,
+                    Err(_) => closed_port(false).await,
                 }
             }
-            _ => closed_port().await,
+            _ => closed_port(quic).await,
         };
-        let a = addr(port, peer_ids[l.to - 1]);
+        let a = addr(tr, port, peer_ids[l.to - 1]);
         if let Some(lp) = litep2ps[l.from - 1].as_mut() {
             lp.add_known_address(peer_ids[l.to - 1], std::iter::once(a.clone()));
         }
@@ -542,6 +595,7 @@ pub async fn run_network(sc: Scenario) -> NetResult {
 
     // ---- director
     let mut max_rdelay = 0u64;
+    let mut frozen_nodes: HashSet<usize> = HashSet::new();
     for st in &sc.steps {
         if st.t > 0 {
             tokio::time::sleep(Duration::from_millis(st.t)).await;
@@ -594,6 +648,20 @@ pub async fn run_network(sc: Scenario) -> NetResult {
                     }
                 }
             }
+            "freeze_node" | "thaw_node" => {
+                if st.o >= 1 && st.o <= n {
+                    if let Some(e) = &net.execs[st.o - 1] {
+                        log.ev(st.o, "d", json!({"e": "cut", "from": st.o, "to": st.o, "dir": st.a, "after": 0}));
+                        e.freeze(st.a == "freeze_node");
+                        if st.a == "freeze_node" {
+                            frozen_nodes.insert(st.o);
+                        } else {
+                            frozen_nodes.remove(&st.o);
+                        }
+                        net.count("node_freeze_steps");
+                    }
+                }
+            }
             "freeze" | "thaw" => {
                 if let Some(p) = net.proxies.get(&(st.from, st.to)) {
                     log.ev(0, "d", json!({"e": "cut", "from": st.from, "to": st.to, "dir": st.a, "after": st.after}));
@@ -620,10 +688,22 @@ pub async fn run_network(sc: Scenario) -> NetResult {
         }
     }
 
+    // a node still frozen at the end of the script is a dropped node: whatever it asked for itself carries
+    // no obligation (its protocol loop was never scheduled again)
+    for node in frozen_nodes {
+        if !net.is_dead(node) {
+            log.ev(node, "d", json!({"e": "kill", "o": node, "by": "frozen"}));
+            net.kill(node);
+            if let Some(Some(tx)) = obs_tx.get(node - 1) {
+                let _ = tx.send(ObsCmd::Die);
+            }
+        }
+    }
     // ---- wait until every request handed over has its terminal event, or the deadline
     // B bounds the time the code may legitimately take for one request (dial + substream open +
     // request write timeout + response timeout); the deadline allows three times that.
-    let b_ms = sc.conn_ms + sc.sub_ms + 2 * sc.timeout_ms + max_rdelay;
+    // (quinn's handshake / idle timeout is at least 3 s whatever is configured)
+    let b_ms = sc.bound_ms.unwrap_or(sc.conn_ms + sc.sub_ms + 2 * sc.timeout_ms + max_rdelay + if quic { 3000 } else { 0 });
     let deadline = Instant::now() + Duration::from_millis(3 * b_ms + 1000);
     let mut timed_out = false;
     loop {
@@ -664,6 +744,7 @@ pub async fn run_network(sc: Scenario) -> NetResult {
     log.ev(0, "d", json!({"e": "quiesce", "lag_ms": lag, "timed_out": timed_out, "discard": discard}));
 
     // ---- teardown
+    drop(silent_udp);
     for node in 1..=n {
         net.dead[node - 1].store(true, Ordering::SeqCst);
         if let Some(e) = &net.execs[node - 1] {
